@@ -222,7 +222,10 @@ def run(ck: Check) -> int:
                         # TypeError for mixed str/bytes, which this search never produces): from any other entry point it is an
                         # undocumented error (seeded change C10c: bytes([value]) for an octal escape above \377)
                         if isinstance(e, (ValueError, TypeError)) and not isinstance(e, W.PatternLimitException) and not api.startswith('pathlib') \
-                                and not (isinstance(e, ValueError) and 'null byte' in str(e)) and not isinstance(e, UnicodeError):
+                                and not (isinstance(e, ValueError) and 'null byte' in str(e)) \
+                                and not (isinstance(e, UnicodeError) and getattr(e, 'encoding', '') not in ('latin-1', 'latin_1', 'iso8859-1', 'iso-8859-1')):
+                            # (a UnicodeError of the FILE-SYSTEM codec is the stdlib's; one of the Latin-1 codec is the library's own bytes <-> text
+                            #  conversion failing: seeded change C10i)
                             # (embedded NUL / undecodable bytes reach os.path.expanduser or the OS under GLOBTILDE / REALPATH: stdlib and
                             #  file-system encoding behaviour, parameters of the model — DESIGN §7)
                             ck.report(Failing(f'{api} raised {kname}: {e} (documented only for pathlib absolute patterns / mixed types)',
